@@ -69,11 +69,15 @@ def gen_cases(tier, seed, env_text):
                 cases.append({"tid": len(cases) + 1, "k": k, "vals": list(vals), "src": label})
         plan.append({"family": label, "cases": len(cases) - n0, "ks": list(ks)})
 
-    full1, small1, wide, tiny2 = U("full1"), U("small1"), U("wide"), U("tiny2")
+    full1, small1, wide, tiny2, recs = U("full1"), U("small1"), U("wide"), U("tiny2"), U("recs")
     rng = random.Random(seed)
     add("singles/full1 (exhaustive)", ([v] for v in full1), KS_ALL)
     add("singles/wide dicts 0..12 keys (exhaustive)", ([v] for v in wide), [0, 1, 2, 3, 10, 12, 200])
     add("singles/tiny2 depth-2 (exhaustive)", ([v] for v in tiny2), [0, 1, 2, 3])
+    add("singles/recs: containers of two overlapping dicts (exhaustive)", ([v] for v in recs), [0, 1, 2, 3])
+    atoms3 = [v for v in recs if v["k"] in ("atom", "str")]
+    add("pairs/recs x {int, None, str} (exhaustive)", ([v, a] for v in recs for a in atoms3 if v is not a), [2, 3])
+    add("pairs/recs (sampled)", (rng.sample(recs, 2) for _ in range(4000 if tier == "quick" else 60000)), [2, 3])
     if tier == "quick":
         pairs = list(itertools.combinations(small1, 2))
         add("pairs/small1 (exhaustive)", pairs, [0, 2])
@@ -84,7 +88,7 @@ def gen_cases(tier, seed, env_text):
         add("pairs/tiny2 (sampled)", rng.sample(list(itertools.combinations(tiny2, 2)), 3000), [0, 2, 3])
         for size in (2, 3, 4, 5):
             add("random multisets size %d over full1+wide+tiny2" % size,
-                (rng.sample(full1 + wide + tiny2, size) for _ in range(1500)), [rng.choice(KS_ALL)])
+                (rng.sample(full1 + wide + tiny2 + recs, size) for _ in range(1500)), [rng.choice(KS_ALL)])
     else:
         mid1 = U("mid1")
         add("pairs/mid1 (exhaustive)", itertools.combinations(mid1, 2), [0, 1, 2, 3, 10])
